@@ -339,12 +339,39 @@ def run_dxdtf(ctx, jobs):
                                        "make_dxdtf after `reaction.%s = %r` (the closure had been built once before the assignment)" % (rec["side"], rec["value"]))
 
 
-def euler_run(system, script_units, dt_nat, nsteps):
-    """run `nsteps` Euler iterations with on_iteration sampling; returns (script, trajectory)"""
+def draw_time_forms(rng, script_units, dt_nat, nsteps):
+    """how `time_step` and `t_max` are written: bare numbers in the script's time unit, or text / UnitValue quantities in a
+    time unit OTHER than the script's (ms, min, h, ...); returns a JSON-able recipe with the exact SI values"""
+    def one(nat):
+        r = rng.random()
+        if r < 0.35:
+            v = L.nice_float(Fraction(nat) / L.si_time(script_units[1]))
+            return {"form": "bare", "value": v, "unit": script_units[1], "si": rstr(Fraction(v) * L.si_time(script_units[1]))}
+        tu = rng.choice([u for u in L.TIME if u != script_units[1]])
+        v = L.nice_float(Fraction(nat) / L.si_time(tu))
+        return {"form": "text" if r < 0.7 else "unitvalue", "value": v, "unit": tu, "si": rstr(Fraction(v) * L.si_time(tu))}
+    return {"time_step": one(dt_nat), "t_max": one(Fraction(dt_nat) * (nsteps + 2))}
+
+
+def time_arg(rec):
+    from strengths.units import UnitValue
+    if rec["form"] == "bare":
+        return rec["value"]
+    if rec["form"] == "text":
+        return "%r %s" % (rec["value"], rec["unit"])
+    return UnitValue(rec["value"], rec["unit"])
+
+
+def euler_run(system, script_units, forms, nsteps):
+    """run `nsteps` Euler iterations with on_iteration sampling; `forms` = draw_time_forms(...) (or a plain dt in seconds for
+    old replay files); returns (script, trajectory); the SI time step the description denotes is forms["time_step"]["si"]"""
     import strengths as st
-    dt = L.nice_float(Fraction(dt_nat) / L.si_factor(script_units, L.D_TIME))
-    script = st.RDScript(system, t_sample=[0], time_step=dt, t_max=dt * (nsteps + 2), sampling_policy="on_iteration", rng_seed=1,
-                         units_system=L.us_obj(script_units))
+    if not isinstance(forms, dict):
+        dt = L.nice_float(Fraction(forms) / L.si_factor(script_units, L.D_TIME))
+        forms = {"time_step": {"form": "bare", "value": dt, "unit": script_units[1]},
+                 "t_max": {"form": "bare", "value": dt * (nsteps + 2), "unit": script_units[1]}}
+    script = st.RDScript(system, t_sample=[0], time_step=time_arg(forms["time_step"]), t_max=time_arg(forms["t_max"]),
+                         sampling_policy="on_iteration", rng_seed=1, units_system=L.us_obj(script_units))
     eng = common.load_engine("euler", "plain")
     eng.setup(script)
     for _ in range(nsteps):
@@ -372,10 +399,12 @@ def run_euler(ctx, jobs):
         phys, system = jb["phys"], jb["system"]
         n, ns = phys["n"], phys["ns"]
         Us = jb["Uscript"]
+        forms = draw_time_forms(ctx.rng, Us, jb["dt_nat"], 2)
+        ctx.count("time_step_" + forms["time_step"]["form"])
         case = {"kind": "euler", "desc": jb["desc"], "phys": phys_dump(phys), "state": jb["state"], "Uscript": list(Us), "dt_nat": jb["dt_nat"],
-                "chem": [int(v) for v in system.chemostats]}
+                "time_forms": forms, "chem": [int(v) for v in system.chemostats]}
         try:
-            script, traj = euler_run(system, Us, jb["dt_nat"], 2)
+            script, traj = euler_run(system, Us, forms, 2)
         except Exception as ex:  # noqa
             ctx.violation("euler:raises", "Euler run raised %s: %s" % (type(ex).__name__, str(ex)[:200]), case, impl=type(ex).__name__)
             continue
@@ -387,7 +416,7 @@ def run_euler(ctx, jobs):
         if len(ss) < 2:
             ctx.violation("euler:samples", "an on_iteration Euler run of 2 iterations recorded %d samples" % len(ss), case, impl=len(ss))
             continue
-        dt_si = Fraction(float(script.time_step.value)) * L.si_factor(L.sys_of(script.time_step.units.sys), L.D_TIME)
+        dt_si = rparse(forms["time_step"]["si"])          # what the description says, not what the script object holds
         for kstep in range(len(ss) - 1):
             if not all(abs(v) < 1e150 for v in ss[kstep][1] + ss[kstep + 1][1]):
                 ctx.count("euler_blowup_skipped")     # explicit Euler with a coarse step diverged (inf/nan): nothing to compare
@@ -621,12 +650,14 @@ def replay(ctx, rec):
             return ok, out
         st_ = case["state"]
         set_state(system, st_["vals"], tuple(st_["units"]), st_["as_unitarray"])
-        script, _ = euler_run(system, tuple(case["Uscript"]), rparse(case["dt_nat"]), 2)
+        forms = case.get("time_forms") or rparse(case["dt_nat"])
+        script, _ = euler_run(system, tuple(case["Uscript"]), forms, 2)
         phys2 = apply_reassignment(phys, script.system, rec)
         traj2 = euler_rerun(script, 2)
         ss = engine_io.samples(traj2)
         fq = L.si_factor(L.sys_of(traj2.data.units.sys), L.D_QTY)
-        dt_si = Fraction(float(script.time_step.value)) * L.si_factor(L.sys_of(script.time_step.units.sys), L.D_TIME)
+        dt_si = rparse(forms["time_step"]["si"]) if isinstance(forms, dict) else \
+            Fraction(float(script.time_step.value)) * L.si_factor(L.sys_of(script.time_step.units.sys), L.D_TIME)
         x0 = [Fraction(v) * fq for v in ss[0][1]]
         x1 = [Fraction(v) * fq for v in ss[1][1]]
         orc = L.oracle_rate(phys2, x0)
@@ -661,10 +692,12 @@ def replay(ctx, rec):
     if case["kind"] == "euler":
         st_ = case["state"]
         set_state(system, st_["vals"], tuple(st_["units"]), st_["as_unitarray"])
-        script, traj = euler_run(system, tuple(case["Uscript"]), rparse(case["dt_nat"]), 2)
+        forms = case.get("time_forms") or rparse(case["dt_nat"])
+        script, traj = euler_run(system, tuple(case["Uscript"]), forms, 2)
         ss = engine_io.samples(traj)
         fq = L.si_factor(L.sys_of(traj.data.units.sys), L.D_QTY)
-        dt_si = Fraction(float(script.time_step.value)) * L.si_factor(L.sys_of(script.time_step.units.sys), L.D_TIME)
+        dt_si = rparse(forms["time_step"]["si"]) if isinstance(forms, dict) else \
+            Fraction(float(script.time_step.value)) * L.si_factor(L.sys_of(script.time_step.units.sys), L.D_TIME)
         chem = [int(v) for v in system.chemostats]
         ok = True
         for kstep in range(len(ss) - 1):
